@@ -83,3 +83,15 @@ CLAIMS["C17"] = ("other",
     "williamson, bloch_messiah, graph_embed. F26 found and repaired; F34 (bloch_messiah) and F39 (sun_compact) are open findings.",
     _TB + "LAPACK-based routines and the general branch of nullMZ/nullMZi are bounded only; np.round(x,14) treated as x.",
     "deductive VCs (NRA with transcendental abstraction) for helper lemmas + bounded numeric stand-in for whole routines", "DESIGN.md 5/C17")
+CLAIMS["C03"] = ("proof",
+    "Merge rules PROVED for all parameter values and both dagger flags: for Dgate, Xgate, Zgate, Sgate, Pgate, Rgate, BSgate, "
+    "S2gate, CXgate, CZgate the real Gate.merge returns None only if the composition of the documented actions is the "
+    "identity and otherwise an operation whose documented action equals the composition; LossChannel/ThermalLossChannel "
+    "merge = composition of the documented channels; Fouriergate and MSgate refuse to merge except Fourier with its inverse; "
+    "self/other/parameter lists unmodified, result fresh. optimize_circuit is executed for real on 7 circuit shapes x 2 "
+    "parameter-sharing patterns with all parameters symbolic: same documented action, not longer, inputs unmodified "
+    "(shape-bounded, reported separately) and exhaustively on short sequences with feed-forward gates (bounded stand-in). "
+    "F3, F4a, F4b found and repaired; F4c (MZgate public merge, pinned by an existing test) is an open finding.",
+    _TB + "Non-Gaussian families (Kgate, Vgate, CKgate) are one-parameter groups by their documented definition exp(i p0 G) (not "
+    "checked); Decomposition.merge (matrix products) not under contract.",
+    "deductive verification: VCs from the real source + z3/cvc5 (NRA with transcendental abstraction)", "DESIGN.md 5/C03")
